@@ -12,7 +12,7 @@ if ! git apply "$src/patch.diff"; then echo "RESULT patch-does-not-apply"; exit 
 cargo build --offline >/dev/null 2>&1 || { echo "RESULT does-not-compile"; exit 1; }
 t=$(cargo test --workspace --offline 2>&1 | grep -E "^test result" | head -1)
 echo "tests with change: $t"
-mkdir -p MUTATION; cp "$src"/demo* MUTATION/ 2>/dev/null
+mkdir -p MUTATION; cp "$src"/* MUTATION/ 2>/dev/null
 sed -i "s#/tmp/wt[0-9]*-C[0-9]*#$wt#g" MUTATION/demo.sh 2>/dev/null
 bash MUTATION/demo.sh >/tmp/confirm-with.log 2>&1; with=$?
 git apply -R "$src/patch.diff"
